@@ -262,3 +262,42 @@ Theorem C01_res_data_means_all : forall cb g data len c,
   (k_len (c_out (fst (connp_res_data cb g data len c))) <= k_read (c_out (fst (connp_res_data cb g data len c))))%nat.
 Proof. exact res_data_data_means_all. Qed.
 Print Assumptions C01_res_data_means_all.
+
+(* ---- leaf components reached from the connection parser, with their own index-checked models (MAuth: every data[pos], every ptr+off,len sub-block
+        and every store is a checked access that sets a fault flag): htp_base64.c, htp_parse_authorization* (htp_parsers.c), htp_parse_cookies_v0 ---- *)
+Require Import Htp.Model.MAuth Htp.Proof.PAuth.
+Local Close Scope Z_scope.
+(* the decoder as written (malloc(len), length_out = len) never writes outside its block, for every input *)
+Theorem C01_base64_no_fault : forall data, b64_decode_mem_fault data = false.
+Proof. exact b64_mem_no_fault. Qed.
+Print Assumptions C01_base64_no_fault.
+(* ... and the allocation size matters exactly: a block of cap bytes is safe for ALL inputs of length len iff len = 0 or 3*len/4 < cap *)
+Theorem C01_base64_min_capacity : forall len cap,
+  (forall data, length data = len -> b64_mem_fault cap data = false) <-> (len = 0 \/ 3 * len / 4 < cap).
+Proof. exact b64_mem_min_capacity. Qed.
+Print Assumptions C01_base64_min_capacity.
+Theorem C01_base64_three_quarters_would_overflow : forall len, 1 <= len -> b64_mem_fault (3 * len / 4) (repeat b64_A len) = true.
+Proof. exact b64_three_quarters_faults. Qed.
+Theorem C01_base64_length : forall data o, b64_decode_mem data = Some o ->
+  length o = 3 * length (b64_sextets data) / 4 /\ length o <= 3 * length data / 4 /\ length o < length data.
+Proof. exact b64_mem_length. Qed.
+Theorem C01_base64_roundtrip : forall s, all_byte s = true -> b64_decode_mem (b64_encode s) = match s with [] => None | _ => Some s end.
+Proof. exact b64_roundtrip. Qed.
+Print Assumptions C01_base64_roundtrip.
+(* the Authorization parsers (Basic / Digest / Bearer dispatch, quoted-string extraction): no index leaves its block, for every header value *)
+Theorem C01_authorization_no_fault : forall hdr, au_fault (au_parse_authorization hdr) = false.
+Proof. exact au_no_fault. Qed.
+Print Assumptions C01_authorization_no_fault.
+(* the cookie parser: no out-of-range access, the loop terminates within its fuel, every name/value is a slice of the header in input order *)
+Theorem C01_cookies_no_fault : forall hdr, ck_fault (ck_parse_cookies_v0 hdr) = false.
+Proof. exact ck_no_fault. Qed.
+Print Assumptions C01_cookies_no_fault.
+Theorem C01_cookies_terminate : forall v, ck_entries v <> None.
+Proof. exact ck_fuel_sufficient. Qed.
+Theorem C01_cookies_are_slices : forall v tbl, ck_table (ck_parse_cookies_v0 (Some v)) = Some tbl ->
+  forall name value, In (name, value) tbl ->
+    name <> [] /\
+    exists noff voff, name = ck_slice v noff (length name) /\ value = ck_slice v voff (length value) /\
+                      noff + length name <= voff /\ voff + length value <= length v.
+Proof. exact ck_pairs_are_slices. Qed.
+Print Assumptions C01_cookies_are_slices.
